@@ -103,9 +103,11 @@ func TestC04LoopExit(t *testing.T) {
 		plan.AddFault(f)
 		// make the site be reached
 		var wg sync.WaitGroup
+		probeLocal := "-"
 		if kind == "accept" {
 			netw := cfg.Net
 			if c, err := net.DialTimeout(netw, e.Addr, 2*time.Second); err == nil {
+				probeLocal = c.LocalAddr().String()
 				defer c.Close()
 			}
 		} else {
@@ -123,6 +125,10 @@ func TestC04LoopExit(t *testing.T) {
 				}
 				wg.Wait()
 			}
+		}
+		// the accept happens on the engine's own time: wait for the fault to strike
+		for dl := time.Now().Add(3 * time.Second); atomic.LoadInt32(&f.Delivered) == 0 && kind == "accept" && probeLocal != "-" && time.Now().Before(dl); {
+			time.Sleep(100 * time.Microsecond)
 		}
 		delivered := atomic.LoadInt32(&f.Delivered) == 1
 		var fails []string
@@ -149,8 +155,17 @@ func TestC04LoopExit(t *testing.T) {
 		for _, p := range e.Logger.Panics() {
 			fails = append(fails, "VERIF-KEY:panic-logged "+p)
 		}
-		if o := plan.Owned(); len(o) > 0 && len(fails) == 0 {
-			fails = append(fails, fmt.Sprintf("VERIF-KEY:life-exit-fd-leak accepted descriptors %v were never closed after the engine went down", o))
+		// (when the fault did not strike the engine was stopped with Stop while the probe connection may
+		// still have been on its way through the acceptor: the known accept-at-shutdown finding of C07,
+		// which is not this check's matter)
+		if o := plan.Owned(); delivered && len(o) > 0 && len(fails) == 0 {
+			var what []string
+			for _, fd := range o {
+				la, _ := unix.Getsockname(fd)
+				ra, _ := unix.Getpeername(fd)
+				what = append(what, fmt.Sprintf("fd %d local %+v peer %+v", fd, la, ra))
+			}
+			fails = append(fails, fmt.Sprintf("VERIF-KEY:life-exit-fd-leak accepted descriptors %v were never closed after the engine went down (%s; the probe connection dialled from %s; calls per site %v; unbound events %v; log %v)", o, strings.Join(what, "; "), probeLocal, plan.Sites, unboundEvents(e), e.Logger.Lines()))
 		}
 		st.Eval()
 		if delivered {
@@ -166,4 +181,14 @@ func TestC04LoopExit(t *testing.T) {
 			t.Fatalf("%s\ncase: %s", strings.Join(fails, "\n"), desc)
 		}
 	})
+}
+
+func unboundEvents(e *fx.Engine) []string {
+	var out []string
+	for _, ev := range e.Log.Events() {
+		if ev.Conn < 0 {
+			out = append(out, ev.Kind)
+		}
+	}
+	return out
 }
